@@ -77,6 +77,25 @@ def validates_param(u, call):
     return any(isinstance(a, ast.Name) and a.id in params for a in call.args)
 
 
+def shared_raw_args(P, R, rid):
+    """(same obligation as C16.R7) a parameter resolved through mapper.filter() is not passed on raw."""
+    from .c16 import public_rpc_methods, _reassigned_between
+    for name, u in public_rpc_methods(P):
+        params = [a.arg for a in u.node.args.args[1:]]
+        filt = [c for c in own_nodes(u.node) if isinstance(c, ast.Call) and call_text(c) == 'self.supvisors.mapper.filter'
+                and c.args and isinstance(c.args[0], ast.List) and len(c.args[0].elts) == 1 and
+                isinstance(c.args[0].elts[0], ast.Name) and c.args[0].elts[0].id in params]
+        for c in filt:
+            p = c.args[0].elts[0].id
+            bad = [x for x in own_nodes(u.node) if isinstance(x, ast.Call) and x.lineno > c.lineno and x is not c and
+                   any(isinstance(a, ast.Name) and a.id == p for a in x.args) and
+                   call_text(x).startswith('self.supvisors.') and 'logger' not in call_text(x) and
+                   'mapper.filter' not in call_text(x) and not _reassigned_between(u, p, c.lineno, x.lineno)]
+            R.check(rid, not bad, 'RPCInterface.%s passes only the resolved identifier on' % name, 'raw-arg|%s' % name,
+                    u.loc(bad[0]) if bad else u.loc(c), 'RPCInterface.%s resolves `%s` through mapper.filter() but then '
+                    'passes the raw parameter to %s' % (name, p, [call_text(x) for x in bad]))
+
+
 def run(P, R):
     RC = P.cls('RPCInterface')
     meths = public_rpc_methods(P)
@@ -315,6 +334,19 @@ def run(P, R):
     r4 = R.rule('R4', 'interprocedural exception flow', 'only RPCError can leave a public RPCInterface method '
                 '(explicit raises; same analysis as C16.R1b)', 40)
     rule_rpc_escape(P, R, r4, Escape(P))
+    # a documented INCORRECT_PARAMETERS: numprocs must be STRICTLY positive when it reaches the Supervisor updater
+    un = P.unit('RPCInterface.update_numprocs')
+    fmu = factmap(un)
+    upd = [c for c in own_nodes(un.node) if isinstance(c, ast.Call) and
+           call_text(c) == 'self.supvisors.supervisor_updater.update_numprocs']
+    ok = len(upd) == 1 and len(upd[0].args) == 2 and isinstance(upd[0].args[1], ast.Name) and \
+        fmu.has(upd[0], '%s > 0' % upd[0].args[1].id, True)
+    R.check(r2, ok, 'update_numprocs hands a strictly positive value to the updater', 'validator|numprocs', un.loc(),
+            'RPCInterface.update_numprocs reaches supervisor_updater.update_numprocs under %s (needs the fact value > 0: '
+            'a negative numprocs is accepted)' % [sorted(tuple(f) for f in fmu.at(c)) for c in upd])
+    shared_raw_args(P, R, r2)
+    from .c03 import rule_restart_sequence
+    rule_restart_sequence(P, R, r2)
     R.assume('Absence of side effects of a rejected call is decided in the form "no effect call before the last '
              'rejecting check"; deep state equality before/after is not.')
     R.assume('The frozen gate table is read off the property statement; a public method absent from it is listed as '
